@@ -36,10 +36,10 @@ def main(ctx, args):
     known = load_known("C01")
     if not extract(ctx):
         ctx.finish()
-    proved = prove(ctx, MODULES, drivers=["drv_prog"])
+    proved = prove(ctx, MODULES, drivers=["drv_prog", "drv_mir"])
     if proved and ctx.tier == "thorough":
         proved = leancheck(ctx, MODULES)
-    if not build_harness(ctx, bins=["runprog"]):
+    if not build_harness(ctx, bins=["runprog", "mir"]):
         ctx.finish()
     times = 24 if ctx.tier == "quick" else 96
     plan = [("scalar", 800, False), ("scalar_tself", 400, False), ("scalar_deep", 300, False), ("nolam", 700, False), ("records", 300, False),
@@ -95,10 +95,17 @@ def main(ctx, args):
                 if m and m != b["src"]:
                     allcases.append({"id": f"{b['id']}#{j}{kind}", "src": m, "sx": None, "times": times, "inputs": b["inputs"], "path": b["path"]})
                     corpus_stats["mutants"] += 1
-    res = pc.run_batch(allcases)
+    res = pc.run_batch(allcases, want_mir=True)
     failures, stats, nontriv, samples = [], collections.Counter(), set(), []
+    mir_matrix, mir_bad, mir_uns = collections.Counter(), [], collections.Counter()
     for c in allcases:
-        vm, wasm, model = res[c["id"]]
+        vm, wasm, model, mir = res[c["id"]]
+        mir_matrix[("generated " if "prog" in c else "corpus ") + pc.mir_class(vm, wasm, model, mir)] += 1
+        if mir is not None and mir.startswith("unsupported"):
+            mir_uns[("generated " if "prog" in c else "corpus ") + mir.split(" (")[0][:50]] += 1
+        mv = pc.mir_verdict(vm, wasm, model, mir)
+        if mv is not None:
+            mir_bad.append((c, mv, vm, wasm, model, mir))
         stats["evaluations"] += 1
         stats["class_vm_" + vm.split(" ")[0]] += 1
         stats["class_wasm_" + wasm.split(" ")[0]] += 1
@@ -119,8 +126,15 @@ def main(ctx, args):
     if failures:
         failures.sort(key=lambda f: len(f[0]["src"]))
         c, why, vm, wasm, model = failures[0]
+        mir = res[c["id"]][3]
+        nv, nw = pc.norm_impl(vm), pc.norm_impl(wasm)
         rep = {"src": c["src"], "sx": c.get("sx"), "inputs": c["inputs"], "times": c["times"], "scheduler": c.get("scheduler", False),
-               "why": why, "vm": vm[:2000], "wasm": wasm[:2000], "model": (model or "")[:2000], "failing_cases": len(failures), "case_id": c["id"]}
+               "why": why, "vm": vm[:2000], "wasm": wasm[:2000], "model": (model or "")[:2000], "failing_cases": len(failures), "case_id": c["id"],
+               "mir_run": (mir or "")[:2000],
+               "localised_by_mir_run": ("wasmgen / WASM runtime (the MIR run agrees with the VM)" if mir == nv and mir != nw else
+                                        "bytecodegen / VM (the MIR run agrees with WASM)" if mir == nw and mir != nv else
+                                        "mirgen or earlier (the MIR run agrees with both back ends)" if mir == nv == nw else
+                                        "unclear: MIR run " + str(mir)[:80])}
         if "prog" in c:
             def still(src, sx, inputs):
                 r = pc.run_batch([{"id": "s", "src": src, "sx": sx, "inputs": inputs, "times": c["times"], "scheduler": c.get("scheduler", False)}], nshards=1)["s"]
@@ -128,6 +142,18 @@ def main(ctx, args):
             rep["shrunk"] = pc.shrink_case(c, still)
             rep["src"], rep["sx"] = rep["shrunk"]["src"], rep["shrunk"]["sx"]
         ctx.violation(f"VM and WASM disagree ({why}) on {len(failures)} generated programs; smallest:\n{rep['src']}", rep)
+    if mir_bad and not failures:
+        mir_bad.sort(key=lambda f: len(f[0]["src"]))
+        c, mv, vm, wasm, model, mir = mir_bad[0]
+        ctx.violation(f"the Lean MIR semantics ({mv}) disagrees with VM, WASM (and the reference semantics where there is one), which agree with each other, on "
+                      f"{len(mir_bad)} programs (defect of Model/Mir.lean or of the dump, to be fixed); smallest:\n{c['src']}",
+                      {"src": c["src"], "sx": c.get("sx"), "inputs": c["inputs"], "times": c["times"], "why": mv, "vm": vm[:2000], "wasm": wasm[:2000],
+                       "model": (model or "")[:2000], "mir_run": (mir or "")[:2000], "failing_cases": len(mir_bad), "case_id": c["id"]}, found_input=False)
+    gen_n = sum(1 for c in allcases if "prog" in c)
+    gen_uns = sum(v for k, v in mir_uns.items() if k.startswith("generated "))
+    if not args.replay and gen_n and gen_uns * 10 > gen_n:
+        ctx.violation(f"the Lean MIR semantics does not cover {gen_uns} of {gen_n} generated programs (> 10 %): {dict(mir_uns.most_common(5))}",
+                      {"stage": "correspond", "unsupported": dict(mir_uns)}, found_input=False)
     if not proved and not failures:
         ctx.violation("proof obligation broken: " + "; ".join(ctx._broken), {"stage": "prove", "theorems": ctx._broken,
                       "lake": getattr(ctx, "_lake_errors", "")}, found_input=False)
@@ -143,5 +169,8 @@ def main(ctx, args):
         "outcome_classes": {k: v for k, v in stats.items() if k.startswith("class_")},
         "construct_counts": dict(gstats),
         "corpus": dict(corpus_stats),
+        "mir_semantics_matrix": {"what": "fourth opinion: the Lean MIR semantics (Model/Mir.lean) run on the dump of the MIR the real compiler produced, per "
+                                         "program against VM, WASM and (generated programs) the reference semantics; bitwise, every sample",
+                                 "cells": dict(sorted(mir_matrix.items())), "unsupported": dict(mir_uns), "model_defects": len(mir_bad)},
     })
     ctx.finish("proof")
